@@ -149,6 +149,9 @@ pub open spec fn sonic_comb_ev(ps: Seq<&LabeledPolynomial>, s: SS, k: nat, x: FS
 pub open spec fn sonic_comb_rand_ev(rs: Seq<&kzg10::Randomness>, s: SS, k: nat, x: FS) -> FS decreases k {
     if k == 0 { f_zero() } else { f_add(sonic_comb_rand_ev(rs, s, (k - 1) as nat, x), f_mul(sp_chal(s, (k - 1) as nat), rs[k - 1].blinding_polynomial.ev(x))) }
 }
+pub open spec fn sonic_max_rlen(rs: Seq<&kzg10::Randomness>, k: nat) -> nat decreases k {
+    if k == 0 { 0 } else { let a = sonic_max_rlen(rs, (k - 1) as nat); let b = rs[k - 1].blinding_polynomial.len(); if a >= b { a } else { b } }
+}
 pub struct SonicKZG10;
 impl SonicKZG10 {
 //@fn id=sonic_pc.open file=poly-commit/src/sonic_pc/mod.rs scope="impl<E, P> PolynomialCommitment<E::ScalarField, P> for SonicKZG10<E, P>" name=open props=C11,C01,C04,C17
@@ -165,7 +168,9 @@ impl SonicKZG10 {
         res is Ok ==> (exists|cp: Poly, cr: kzg10::Randomness| #![trigger kzg10::open_spec_seq(ck.powers_of_g@, ck.powers_of_gamma_g@, &cp, *point, &cr, res->Ok_0)]
             (forall|x: FS| #[trigger] cp.ev(x) == sonic_comb_ev(labeled_polynomials@, old(sponge).st@, min(labeled_polynomials@.len(), states@.len()), x))
             && (forall|x: FS| #[trigger] cr.blinding_polynomial.ev(x) == sonic_comb_rand_ev(states@, old(sponge).st@, min(labeled_polynomials@.len(), states@.len()), x))
+            && cr.blinding_polynomial.len() <= sonic_max_rlen(states@, min(labeled_polynomials@.len(), states@.len()))
             && kzg10::open_spec_seq(ck.powers_of_g@, ck.powers_of_gamma_g@, &cp, *point, &cr, res->Ok_0)),   // name=sonic_pc.open.opens_the_challenge_weighted_combination props=C01,C11
+        res is Ok ==> sonic_open_post(ck, labeled_polynomials@, states@, *point, old(sponge).st@, min(labeled_polynomials@.len(), states@.len()), res->Ok_0),   // name=sonic_pc.open.post_as_used_by_the_completeness_lemma props=C01
         res is Ok ==> (forall|i: int| 0 <= i < min(labeled_polynomials@.len(), states@.len()) ==> ((#[trigger] labeled_polynomials@[i]).degree_bound is Some ==>
             (ck.enforced_degree_bounds is Some && ck.enforced_degree_bounds->Some_0@.contains(labeled_polynomials@[i].degree_bound->Some_0)
              && labeled_polynomials@[i].polynomial.degree_spec() <= labeled_polynomials@[i].degree_bound->Some_0 && labeled_polynomials@[i].degree_bound->Some_0 <= ck.max_degree))),   // name=sonic_pc.open.bound_violations_are_refused props=C04,C17
@@ -181,6 +186,7 @@ impl SonicKZG10 {
                 combined_polynomial.wf(), combined_polynomial.coeffs@.len() < usize::MAX,
                 forall|x: FS| #[trigger] combined_polynomial.ev(x) == sonic_comb_ev(labeled_polynomials@, old(sponge).st@, it.index@ as nat, x),
                 forall|x: FS| #[trigger] combined_rand.blinding_polynomial.ev(x) == sonic_comb_rand_ev(states@, old(sponge).st@, it.index@ as nat, x),
+                combined_rand.blinding_polynomial.len() <= sonic_max_rlen(states@, it.index@ as nat),
                 forall|i: int| 0 <= i < it.index@ ==> ((#[trigger] labeled_polynomials@[i]).degree_bound is Some ==>
                     (ck.enforced_degree_bounds is Some && ck.enforced_degree_bounds->Some_0@.contains(labeled_polynomials@[i].degree_bound->Some_0)
                      && labeled_polynomials@[i].polynomial.degree_spec() <= labeled_polynomials@[i].degree_bound->Some_0 && labeled_polynomials@[i].degree_bound->Some_0 <= ck.max_degree)),
@@ -189,4 +195,215 @@ impl SonicKZG10 {
 //@after /let mut curr_challenge =/
         proof { reveal_with_fuel(sp_iter, 3); broadcast use ax_mul_comm; }
 //@end
+}
+
+// ---------------- completeness of SonicKZG10 over the contracts of commit, open (this file) and check (units/sonic.rs) ----------------
+//@struct file=poly-commit/src/sonic_pc/data_structures.rs name=VerifierKey
+pub type Commitment = kzg10::Commitment;
+//@spec sonic_spec
+pub open spec fn sonic_off(ck: &CommitterKey, d: Option<usize>) -> nat { match d { Some(b) => (ck.max_degree - b) as nat, None => 0 } }
+// the key elements a polynomial with bound d is committed under (as in sonic_commit_one)
+pub open spec fn sonic_w(ck: &CommitterKey, d: Option<usize>) -> Seq<G1Affine> { match d {
+    Some(b) => ck.shifted_powers_of_g->Some_0@.subrange(ck.enforced_degree_bounds->Some_0@.last() - b, ck.shifted_powers_of_g->Some_0@.len() as int), None => ck.powers_of_g@ } }
+pub open spec fn sonic_gw(ck: &CommitterKey, d: Option<usize>) -> Seq<G1Affine> { match d { Some(b) => ck.shifted_powers_of_gamma_g->Some_0@[b]@, None => ck.powers_of_gamma_g@ } }
+// HYPOTHESIS: keys in trapdoor form (what setup + trim produce: units/kzg10_setup.rs, units/sonic_trim.rs): powers g beta^i and gamma g beta^i, beta h,
+// the window for bound d starting at beta^(D - d), and the verifier's shift element for d the matching NEGATIVE power of h:  beta^(D-d) * shift_d == h
+pub open spec fn sonic_srs_ok(ck: &CommitterKey, vk: &VerifierKey, beta: FS) -> bool {
+    geometric(g1views(ck.powers_of_g@), vk.g@, beta, 0) && geometric(g1views(ck.powers_of_gamma_g@), vk.gamma_g@, beta, 0) && vk.prepared_beta_h@ == f_mul(vk.prepared_h@, beta)
+}
+pub open spec fn sonic_bound_ok(ck: &CommitterKey, vk: &VerifierKey, beta: FS, d: Option<usize>) -> bool {
+    d is Some ==> (d->Some_0 <= ck.max_degree
+        && geometric(g1views(sonic_w(ck, d)), vk.g@, beta, sonic_off(ck, d)) && geometric(g1views(sonic_gw(ck, d)), vk.gamma_g@, beta, sonic_off(ck, d))
+        && sonic_shift_of(vk, d->Some_0) is Some && f_mul(f_pow(beta, sonic_off(ck, d)), sonic_shift_of(vk, d->Some_0)->Some_0) == vk.prepared_h@)
+}
+pub open spec fn sonic_one_ok(ck: &CommitterKey, vk: &VerifierKey, beta: FS, p: &LabeledPolynomial, c: &LabeledCommitment<Commitment>, st: &kzg10::Randomness) -> bool {
+    sonic_bound_ok(ck, vk, beta, p.degree_bound) && sonic_commit_one(ck, p, c, st)
+    && p.polynomial.len() <= sonic_w(ck, p.degree_bound).len() && st.blinding_polynomial.len() <= sonic_gw(ck, p.degree_bound).len()
+    && st.blinding_polynomial.len() <= ck.powers_of_gamma_g@.len()
+}
+pub open spec fn sonic_cval(vk: &VerifierKey, beta: FS, p: &LabeledPolynomial, st: &kzg10::Randomness) -> FS {
+    f_add(f_mul(vk.g@, p.polynomial.ev(beta)), f_mul(vk.gamma_g@, st.blinding_polynomial.ev(beta)))
+}
+// ((g e) P + (c e) R) sh == (g P + c R) (e sh)
+proof fn lemma_sonic_shift_alg(g: FS, c: FS, e: FS, pp: FS, rr: FS, sh: FS)
+    ensures f_mul(f_add(f_mul(f_mul(g, e), pp), f_mul(f_mul(c, e), rr)), sh) == f_mul(f_add(f_mul(g, pp), f_mul(c, rr)), f_mul(e, sh))
+{
+    // (g e) P = (g P) e
+    ax_mul_assoc(g, e, pp); ax_mul_comm(e, pp); ax_mul_assoc(g, pp, e);
+    ax_mul_assoc(c, e, rr); ax_mul_comm(e, rr); ax_mul_assoc(c, rr, e);
+    let x = f_mul(g, pp); let y = f_mul(c, rr);
+    ax_mul_comm(f_add(x, y), e); ax_distrib(e, x, y); ax_mul_comm(e, x); ax_mul_comm(e, y);
+    assert(f_add(f_mul(f_mul(g, e), pp), f_mul(f_mul(c, e), rr)) == f_mul(f_add(x, y), e));
+    ax_mul_assoc(f_add(x, y), e, sh);
+}
+proof fn lemma_sonic_one(ck: &CommitterKey, vk: &VerifierKey, beta: FS, p: &LabeledPolynomial, c: &LabeledCommitment<Commitment>, st: &kzg10::Randomness)
+    requires sonic_srs_ok(ck, vk, beta), sonic_one_ok(ck, vk, beta, p, c, st)
+    ensures f_mul(c.commitment.0@, sonic_shift(vk, c.degree_bound)) == f_mul(sonic_cval(vk, beta, p, st), vk.prepared_h@)
+{
+    let d = p.degree_bound; let w = sonic_w(ck, d); let gw = sonic_gw(ck, d); let off = sonic_off(ck, d); let e = f_pow(beta, off);
+    let g = vk.g@; let cc = vk.gamma_g@; let h = vk.prepared_h@; let sh = sonic_shift(vk, d); let r = st.blinding_polynomial;
+    lemma_dot_geometric(g1views(w), g, beta, off, p.polynomial.cv(), p.polynomial.len());
+    lemma_dot_geometric(g1views(gw), cc, beta, off, r.cv(), r.len());
+    assert(c.commitment.0@ == f_add(f_mul(f_mul(g, e), p.polynomial.ev(beta)), f_mul(f_mul(cc, e), r.ev(beta))));
+    lemma_sonic_shift_alg(g, cc, e, p.polynomial.ev(beta), r.ev(beta), sh);
+    if d is None { ax_mul_comm(f_one(), h); ax_mul_one(h); }
+    assert(f_mul(e, sh) == h);
+}
+// g (a + xi P) + c (b + xi R) == (g a + c b) + xi (g P + c R)
+proof fn lemma_sonic_lin_alg(g: FS, c: FS, a: FS, b: FS, xi: FS, pp: FS, rr: FS)
+    ensures f_add(f_mul(g, f_add(a, f_mul(xi, pp))), f_mul(c, f_add(b, f_mul(xi, rr)))) == f_add(f_add(f_mul(g, a), f_mul(c, b)), f_mul(xi, f_add(f_mul(g, pp), f_mul(c, rr))))
+{
+    ax_distrib(g, a, f_mul(xi, pp)); ax_distrib(c, b, f_mul(xi, rr));
+    ax_mul_assoc(g, xi, pp); ax_mul_comm(g, xi); ax_mul_assoc(xi, g, pp);
+    ax_mul_assoc(c, xi, rr); ax_mul_comm(c, xi); ax_mul_assoc(xi, c, rr);
+    lemma_add_swap(f_mul(g, a), f_mul(xi, f_mul(g, pp)), f_mul(c, b), f_mul(xi, f_mul(c, rr)));
+    ax_distrib(xi, f_mul(g, pp), f_mul(c, rr));
+}
+proof fn lemma_sonic_csum(ck: &CommitterKey, vk: &VerifierKey, beta: FS, lps: Seq<&LabeledPolynomial>, cs: Seq<&LabeledCommitment<Commitment>>, sts: Seq<&kzg10::Randomness>, s: SS, n: nat)
+    requires n <= lps.len(), n <= cs.len(), n <= sts.len(), sonic_srs_ok(ck, vk, beta), forall|i: int| 0 <= i < n ==> sonic_one_ok(ck, vk, beta, #[trigger] lps[i], cs[i], sts[i])
+    ensures sonic_csum(cs, s, vk, n) == f_mul(f_add(f_mul(vk.g@, sonic_comb_ev(lps, s, n, beta)), f_mul(vk.gamma_g@, sonic_comb_rand_ev(sts, s, n, beta))), vk.prepared_h@)
+    decreases n
+{
+    let g = vk.g@; let cc = vk.gamma_g@; let h = vk.prepared_h@;
+    if n == 0 { lemma_mul_zero(g); lemma_mul_zero(cc); ax_add_zero(f_zero()); ax_mul_comm(f_zero(), h); lemma_mul_zero(h); }
+    else {
+        let j = (n - 1) as nat; let ji = j as int; let xi = sp_chal(s, j);
+        lemma_sonic_csum(ck, vk, beta, lps, cs, sts, s, j);
+        assert(sonic_one_ok(ck, vk, beta, lps[ji], cs[ji], sts[ji]));
+        lemma_sonic_one(ck, vk, beta, lps[ji], cs[ji], sts[ji]);
+        let cv = sonic_cval(vk, beta, lps[ji], sts[ji]); let cm = cs[ji].commitment.0@; let sh = sonic_shift(vk, cs[ji].degree_bound);
+        // (C xi) sh == (xi cval) h
+        ax_mul_comm(cm, xi); ax_mul_assoc(xi, cm, sh); ax_mul_assoc(xi, cv, h);
+        let a = sonic_comb_ev(lps, s, j, beta); let b = sonic_comb_rand_ev(sts, s, j, beta);
+        lemma_sonic_lin_alg(g, cc, a, b, xi, lps[ji].polynomial.ev(beta), sts[ji].blinding_polynomial.ev(beta));
+        let prev = f_add(f_mul(g, a), f_mul(cc, b));
+        ax_mul_comm(f_add(prev, f_mul(xi, cv)), h); ax_distrib(h, prev, f_mul(xi, cv)); ax_mul_comm(h, prev); ax_mul_comm(h, f_mul(xi, cv));
+    }
+}
+proof fn lemma_sonic_values(lps: Seq<&LabeledPolynomial>, vs: Seq<Fr>, z: FS, s: SS, n: nat)
+    requires n <= lps.len(), n <= vs.len(), forall|i: int| 0 <= i < n ==> (#[trigger] vs[i])@ == lps[i].polynomial.ev(z)
+    ensures sonic_values(vs, s, n) == sonic_comb_ev(lps, s, n, z)
+    decreases n
+{ if n > 0 { lemma_sonic_values(lps, vs, z, s, (n - 1) as nat); ax_mul_comm(vs[n - 1]@, sp_chal(s, (n - 1) as nat)); } }
+// with A = w (b - z) + gV + cRV:   A h + (-(0 + ((gV - w z) + cRV))) h + (-(0 + w)) (h b) == 0
+proof fn lemma_sonic_final_alg(w: FS, b: FS, z: FS, gv: FS, crv: FS, h: FS)
+    ensures f_add(f_add(f_mul(f_add(f_add(f_mul(w, f_sub(b, z)), gv), crv), h), f_mul(f_neg(f_add(f_zero(), f_add(f_sub(gv, f_mul(w, z)), crv))), h)), f_mul(f_neg(f_add(f_zero(), w)), f_mul(h, b))) == f_zero()
+{
+    let wb = f_mul(w, b); let wz = f_mul(w, z);
+    lemma_distrib_sub(w, b, z);
+    let a = f_add(f_add(f_sub(wb, wz), gv), crv); let adj = f_add(f_sub(gv, wz), crv);
+    ax_add_comm(f_zero(), adj); ax_add_zero(adj); ax_add_comm(f_zero(), w); ax_add_zero(w);
+    // a - adj == wb
+    assert(f_add(a, f_neg(adj)) == wb) by {
+        // a = ((wb - wz) + gv) + crv ; adj = (gv - wz) + crv
+        lemma_neg_add(f_sub(gv, wz), crv); lemma_neg_add(gv, f_neg(wz)); lemma_neg_neg(wz);
+        // -adj = (-gv + wz) + -crv
+        let na = f_add(f_add(f_neg(gv), wz), f_neg(crv));
+        assert(f_neg(adj) == na);
+        // ((wb + -wz) + gv) + crv + ((-gv + wz) + -crv)
+        ax_add_assoc(f_add(f_sub(wb, wz), gv), crv, na);
+        ax_add_comm(f_add(f_neg(gv), wz), f_neg(crv)); ax_add_assoc(crv, f_neg(crv), f_add(f_neg(gv), wz)); ax_add_neg(crv);
+        ax_add_comm(f_zero(), f_add(f_neg(gv), wz)); ax_add_zero(f_add(f_neg(gv), wz));
+        assert(f_add(crv, na) == f_add(f_neg(gv), wz));
+        ax_add_assoc(f_sub(wb, wz), gv, f_add(f_neg(gv), wz));
+        ax_add_assoc(gv, f_neg(gv), wz); ax_add_neg(gv); ax_add_comm(f_zero(), wz); ax_add_zero(wz);
+        assert(f_add(gv, f_add(f_neg(gv), wz)) == wz);
+        ax_add_assoc(wb, f_neg(wz), wz); ax_add_comm(f_neg(wz), wz); ax_add_neg(wz); ax_add_zero(wb);
+    }
+    // a h + (-adj) h == (a - adj) h == wb h ;  (-w)(h b) == -(wb h)
+    ax_mul_comm(f_add(a, f_neg(adj)), h); ax_distrib(h, a, f_neg(adj)); ax_mul_comm(h, a); ax_mul_comm(h, f_neg(adj));
+    lemma_neg_mul(w, f_mul(h, b));
+    ax_mul_comm(h, b); ax_mul_assoc(w, b, h);
+    ax_add_neg(f_mul(wb, h));
+}
+// what `open` guarantees (the text of its postcondition sonic_pc.open.opens_the_challenge_weighted_combination)
+pub open spec fn sonic_open_post(ck: &CommitterKey, lps: Seq<&LabeledPolynomial>, sts: Seq<&kzg10::Randomness>, z: Fr, s: SS, n: nat, pr: kzg10::Proof) -> bool {
+    exists|cp: Poly, cr: kzg10::Randomness| #![trigger kzg10::open_spec_seq(ck.powers_of_g@, ck.powers_of_gamma_g@, &cp, z, &cr, pr)]
+        (forall|x: FS| #[trigger] cp.ev(x) == sonic_comb_ev(lps, s, n, x))
+        && (forall|x: FS| #[trigger] cr.blinding_polynomial.ev(x) == sonic_comb_rand_ev(sts, s, n, x))
+        && cr.blinding_polynomial.len() <= sonic_max_rlen(sts, n)
+        && kzg10::open_spec_seq(ck.powers_of_g@, ck.powers_of_gamma_g@, &cp, z, &cr, pr)
+}
+proof fn lemma_sonic_max_rlen(sts: Seq<&kzg10::Randomness>, n: nat, bound: nat)
+    requires n <= sts.len(), forall|i: int| 0 <= i < n ==> (#[trigger] sts[i]).blinding_polynomial.len() <= bound
+    ensures sonic_max_rlen(sts, n) <= bound
+    decreases n
+{ if n > 0 { lemma_sonic_max_rlen(sts, (n - 1) as nat, bound); } }
+// the equation `check_elems` decides, for a list `e` of the bucket map's entries
+pub open spec fn sonic_check_eq(e: Seq<(Option<usize>, G1)>, vk: &VerifierKey, z: FS, pr: &kzg10::Proof, cv: FS) -> bool {
+    f_add(f_add(sonic_pairing_sum(e, vk, e.len()), pair(f_neg(f_add(f_zero(), sonic_adjusted(vk, z, pr, cv))), vk.prepared_h@)), pair(f_neg(f_add(f_zero(), pr.w@)), vk.prepared_beta_h@)) == f_zero()
+}
+//@lemma props=C01
+// COMPLETENESS: keys in trapdoor form, commitments as `commit` returns them, the proof as `open` returns it, the true values  ==>  the equation `check` decides holds,
+// for ANY enumeration e of the verifier's bucket map (distinct keys, one entry per bound present, entry value = 0 + bucket: what `accumulate_elems` / BTreeMap::into_iter give)
+pub proof fn lemma_sonic_complete(ck: &CommitterKey, vk: &VerifierKey, beta: FS, lps: Seq<&LabeledPolynomial>, cs: Seq<&LabeledCommitment<Commitment>>, sts: Seq<&kzg10::Randomness>,
+                                  vs: Seq<Fr>, z: Fr, s: SS, pr: kzg10::Proof, e: Seq<(Option<usize>, G1)>)
+    requires
+        lps.len() == cs.len(), sts.len() == cs.len(), vs.len() == cs.len(),
+        sonic_srs_ok(ck, vk, beta),
+        forall|i: int| 0 <= i < cs.len() ==> sonic_one_ok(ck, vk, beta, #[trigger] lps[i], cs[i], sts[i]) && vs[i]@ == lps[i].polynomial.ev(z@),
+        sonic_open_post(ck, lps, sts, z, s, cs.len(), pr),
+        sonic_keys_distinct(e),
+        forall|i: int| 0 <= i < cs.len() ==> sonic_has_key(e, (#[trigger] cs[i]).degree_bound, e.len()),
+        forall|i: int| 0 <= i < e.len() ==> (#[trigger] e[i]).1@ == f_add(f_zero(), sonic_bucket(cs, s, None, e[i].0, cs.len())),
+    ensures
+        sonic_check_eq(e, vk, z@, &pr, sonic_values(vs, s, cs.len()))
+{
+    let n = cs.len(); let g = vk.g@; let cc = vk.gamma_g@; let h = vk.prepared_h@; let zz = z@;
+    // left-hand side: the buckets regroup to the commitments, which are (g cp(beta) + c cr(beta)) h
+    lemma_sonic_pairing_sum_is_bsum(e, cs, s, vk, n, e.len());
+    lemma_sonic_bsum_total(e, cs, s, vk, n);
+    lemma_sonic_csum(ck, vk, beta, lps, cs, sts, s, n);
+    lemma_sonic_values(lps, vs, zz, s, n);
+    let (cp, cr): (Poly, kzg10::Randomness) = choose|cp: Poly, cr: kzg10::Randomness| #![trigger kzg10::open_spec_seq(ck.powers_of_g@, ck.powers_of_gamma_g@, &cp, z, &cr, pr)]
+        (forall|x: FS| #[trigger] cp.ev(x) == sonic_comb_ev(lps, s, n, x))
+        && (forall|x: FS| #[trigger] cr.blinding_polynomial.ev(x) == sonic_comb_rand_ev(sts, s, n, x))
+        && cr.blinding_polynomial.len() <= sonic_max_rlen(sts, n)
+        && kzg10::open_spec_seq(ck.powers_of_g@, ck.powers_of_gamma_g@, &cp, z, &cr, pr);
+    let r = cr.blinding_polynomial; let pg = ck.powers_of_g@; let pgam = ck.powers_of_gamma_g@;
+    assert(cp.ev(beta) == sonic_comb_ev(lps, s, n, beta) && cp.ev(zz) == sonic_comb_ev(lps, s, n, zz));
+    assert(r.ev(beta) == sonic_comb_rand_ev(sts, s, n, beta) && r.ev(zz) == sonic_comb_rand_ev(sts, s, n, zz));
+    assert forall|i: int| 0 <= i < n implies (#[trigger] sts[i]).blinding_polynomial.len() <= pgam.len() by { assert(sonic_one_ok(ck, vk, beta, lps[i], cs[i], sts[i])); }
+    lemma_sonic_max_rlen(sts, n, pgam.len());
+    let (w, hw): (Poly, Option<Poly>) = choose|w: Poly, hw: Option<Poly>| #![trigger w.cv(), hw.is_some()]
+        (forall|x: FS| cp.ev(x) == f_add(f_mul(#[trigger] w.ev(x), f_sub(x, zz)), cp.ev(zz)))
+        && (hw is Some) == !r.is_zero_spec()
+        && (hw is Some ==> (forall|x: FS| r.ev(x) == f_add(f_mul(#[trigger] hw->Some_0.ev(x), f_sub(x, zz)), r.ev(zz))))
+        && pr.w@ == f_add(msm(pg, w.cv(), w.len()), match hw { Some(hh) => msm(pgam, hh.cv(), min(pgam.len(), hh.len())), None => f_zero() })
+        && (pr.random_v is Some) == (hw is Some)
+        && (hw is Some ==> pr.random_v->Some_0@ == r.ev(zz))
+        && w.len() <= pg.len()
+        && (hw is Some ==> hw->Some_0.len() + 1 <= r.len() || hw->Some_0.len() == 0);
+    let d = f_sub(beta, zz); let wb = w.ev(beta); let pz = cp.ev(zz); let rz = r.ev(zz);
+    assert(f_mul(g, f_pow(beta, 0)) == g) by { ax_mul_one(g); }
+    assert(f_mul(cc, f_pow(beta, 0)) == cc) by { ax_mul_one(cc); }
+    lemma_dot_geometric(g1views(pg), g, beta, 0, w.cv(), w.len());
+    assert(cp.ev(beta) == f_add(f_mul(wb, d), pz));
+    let gv = f_mul(g, pz);
+    match hw {
+        Some(hh) => {
+            let hb = hh.ev(beta);
+            lemma_dot_geometric(g1views(pgam), cc, beta, 0, hh.cv(), hh.len());
+            assert(r.ev(beta) == f_add(f_mul(hb, d), rz));
+            assert(pr.w@ == f_add(f_mul(g, wb), f_mul(cc, hb)));
+            let crv = f_mul(cc, rz);
+            // g (wb d + pz) + c (hb d + rz) == (w d + g pz) + c rz
+            ax_distrib(g, f_mul(wb, d), pz); ax_distrib(cc, f_mul(hb, d), rz);
+            ax_mul_assoc(g, wb, d); ax_mul_assoc(cc, hb, d);
+            lemma_add_swap(f_mul(f_mul(g, wb), d), gv, f_mul(f_mul(cc, hb), d), crv);
+            ax_mul_comm(pr.w@, d); ax_distrib(d, f_mul(g, wb), f_mul(cc, hb)); ax_mul_comm(d, f_mul(g, wb)); ax_mul_comm(d, f_mul(cc, hb));
+            ax_add_assoc(f_mul(pr.w@, d), gv, crv);
+            lemma_sonic_final_alg(pr.w@, beta, zz, gv, crv, h);
+        }
+        None => {
+            assert forall|i: int| 0 <= i < r.cv().len() implies r.cv()[i] == f_zero() by { assert(r.coeffs@[i]@ == f_zero()); }
+            lemma_peval_zero(r.cv(), beta, r.len());
+            lemma_mul_zero(cc); ax_add_zero(f_mul(g, cp.ev(beta))); ax_add_zero(f_mul(g, wb));
+            assert(pr.w@ == f_mul(g, wb));
+            ax_distrib(g, f_mul(wb, d), pz); ax_mul_assoc(g, wb, d);
+            // reuse the closing identity with c rv = 0
+            lemma_sonic_final_alg(pr.w@, beta, zz, gv, f_zero(), h);
+            ax_add_zero(f_add(f_mul(pr.w@, d), gv)); ax_add_zero(f_sub(gv, f_mul(pr.w@, zz)));
+        }
+    }
 }
